@@ -4,7 +4,7 @@ import os, re, json, glob
 from vlib import common
 
 # which design variant of ATP.tla the CURRENT code implements (changed together with the repairs)
-DESIGN = dict(MergedExit=True, LateClose=True)
+DESIGN = dict(MergedExit=True, LateClose=True, SharedDecoder=True)
 
 DROP = {"e.wfail", "t.c2s.wfail", "s.stdin.close", "t.s2c.wfail", "t.s2c.rfail", "t.s2c.rclose",
         "s.step.done", "s.closure.fatal", "c.loop.start"}
@@ -96,6 +96,7 @@ CONSTANTS
   Serial = FALSE
   MergedExit = %s
   LateClose = %s
+  SharedDecoder = %s
   NoRun = ""
   MaxEnv = 100000
   MaxUnsol = 100000
@@ -103,7 +104,8 @@ INVARIANT %s
 CONSTRAINT HighWater
 POSTCONDITION Accepted
 """ % (tla_set(runs), cap, tla_set(sig), tla_set(badsig), tla_set(emit),
-       "TRUE" if d["MergedExit"] else "FALSE", "TRUE" if d["LateClose"] else "FALSE", inv))
+       "TRUE" if d["MergedExit"] else "FALSE", "TRUE" if d["LateClose"] else "FALSE",
+       "TRUE" if d["SharedDecoder"] else "FALSE", inv))
 
 
 def merge_env(evs):
@@ -187,18 +189,23 @@ _LBL = re.compile(r'^\\\* <(\w+)(?:\(([^)]*)\))? line')
 def parse_sim_file(path):
     """a behaviour written by `tlc -simulate file=...`: list of (action, run) and the final state text"""
     acts, last = [], []
+    prev = None
     with open(path) as f:
-        cur = None
-        for line in f:
-            m = _LBL.match(line)
-            if m:
-                name = m.group(1)
-                if name != "Init":
-                    acts.append(_act(name, m.group(2)))
-                last = []
-            else:
-                last.append(line)
-    return acts, "".join(last)
+        text = f.read()
+    blocks = re.split(r"(?m)^\\\* <", text)
+    for b in blocks[1:]:
+        m = re.match(r"(\w+)(?:\(([^)]*)\))? line", b)
+        cur = dict(c2s=_wire_len(b, "c2s"), s2c=_wire_len(b, "s2c"))
+        if m and m.group(1) != "Init":
+            a = _act(m.group(1), m.group(2))
+            if prev is not None:
+                d = max(abs(cur["c2s"] - prev["c2s"]), abs(cur["s2c"] - prev["s2c"]))
+                if d:
+                    a["n"] = d
+            acts.append(a)
+        prev = cur
+        last = b
+    return acts, last
 
 
 def final_field(state_text, var):
@@ -211,7 +218,8 @@ def mc_cfg(path, consts, invariants=(), properties=(), spec="Spec", constraint=N
     d = dict(Runs="R2", Cap=0, Frag="FALSE", StepBeh="BehOk", SigRuns="None", BadSigRuns="None", EmitRuns="None",
              WithClose="FALSE", Serial="FALSE", NoRun="Empty",
              MergedExit="TRUE" if DESIGN["MergedExit"] else "FALSE",
-             LateClose="TRUE" if DESIGN["LateClose"] else "FALSE")
+             LateClose="TRUE" if DESIGN["LateClose"] else "FALSE",
+             SharedDecoder="TRUE" if DESIGN["SharedDecoder"] else "FALSE")
     d.update(consts)
     if spec.startswith("F"):          # ATPClientEnv extends ATPServerEnv: both bounds are constants there
         d.setdefault("MaxEnv", 0)
@@ -234,11 +242,28 @@ _CEX = re.compile(r'^State \d+: <(\w+)(?:\(([^)]*)\))? line', re.M)
 
 
 def parse_cex(out):
-    """action labels of a counterexample printed by TLC"""
+    """action labels of a counterexample printed by TLC, with the number of fragments each step put on
+    or took off a wire (n), so that fragmentation and coalescing are replayed too"""
     acts = []
-    for m in _CEX.finditer(out):
-        acts.append(_act(m.group(1), m.group(2)))
+    blocks = re.split(r"(?m)^State \d+: ", out)
+    prev = None
+    for b in blocks[1:]:
+        m = re.match(r"<(\w+)(?:\(([^)]*)\))? line", b)
+        cur = dict(c2s=_wire_len(b, "c2s"), s2c=_wire_len(b, "s2c"))
+        if m and m.group(1) != "Initial":
+            a = _act(m.group(1), m.group(2))
+            if prev is not None:
+                d = max(abs(cur["c2s"] - prev["c2s"]), abs(cur["s2c"] - prev["s2c"]))
+                if d:
+                    a["n"] = d
+            acts.append(a)
+        prev = cur
     return acts
+
+
+def _wire_len(block, var):
+    m = re.search(r"/\\ %s = (.*?)(?=\n/\\ |\Z)" % var, block, re.S)
+    return m.group(1).count("p |->") if m else 0
 
 
 def _act(name, argtext):
@@ -268,3 +293,15 @@ def run_driver(ctx, scenarios, jobs=None, timeout=1800, race=False, label="atp")
     if len(res) != len(scenarios):
         raise common.Infra("atp driver returned %d results for %d scenarios" % (len(res), len(scenarios)))
     return res
+
+
+def deviation_cex(ctx, module, name, consts, invariants, properties=(), spec="Spec"):
+    """Counterexample of a DELIBERATELY WRONG design variant of the model (a named deviation such as the pinned
+    client's separately locked loop exit).  TLC must find it (otherwise the specification has lost the ability to
+    express the defect: Infra); the schedule is then replayed into the real code as a targeted regression test."""
+    cfg = mc_cfg(os.path.join(ctx.tmp, "deviation_%s.cfg" % name), consts, invariants=invariants, properties=properties, spec=spec)
+    r = ctx.tlc(module, cfg, workers=min(12, common.NCPU), timeout=1200, allow_violation=True)
+    if not r.violated:
+        raise common.Infra("the deviation model %s no longer violates its property: the specification cannot express the "
+                           "known defect any more" % name)
+    return r
